@@ -147,7 +147,7 @@ pub fn main(args: &[String]) -> Result<(), String> {
 
 pub const GARBAGE_KINDS: &[&str] =
     &["pairs", "vectors", "strings", "closures", "continuations", "eval", "toplevel", "symbols", "bignums", "mixed",
-      "contchain", "delayforce", "freshlocals", "bursts"];
+      "contchain", "delayforce", "freshlocals", "bursts", "sliced-pairs", "sliced-closures"];
 
 /// (setup forms, loop form with the iteration count N substituted, per-iteration top-level form if any)
 fn garbage_program(kind: &str, live: usize, n: usize) -> (Vec<String>, Vec<String>) {
@@ -217,7 +217,16 @@ struct RunStats {
 }
 
 fn run_garbage(kind: &str, live: usize, n: usize, every: u64, maxev: usize) -> Result<RunStats, String> {
-    let cfg = RunCfg::plain();
+    let mut cfg = RunCfg::plain();
+    // sliced-<kind>: the same loop driven by prepare_eval + run_count in slices of 1000 instructions (an embedder's
+    // event loop): garbage must be reclaimed there as well
+    let kind = match kind.strip_prefix("sliced-") {
+        Some(base) => {
+            cfg.budgets = Some(vec![1000]);
+            base
+        }
+        None => kind,
+    };
     let mut s = Session::new(&cfg);
     let log = Rc::new(RefCell::new(GcLog { max_events: maxev, ..Default::default() }));
     let (setup, run) = garbage_program(kind, live, n);
